@@ -1006,6 +1006,13 @@ static int apply_patch(cJSON *object, const cJSON *patch, const cJSON_bool case_
 
         if (opcode == MOVE)
         {
+            const size_t from_length = strlen(from->valuestring);
+            if ((strncmp(from->valuestring, path->valuestring, from_length) == 0) && (path->valuestring[from_length] == '/'))
+            {
+                /* a value cannot be moved into one of its own children (RFC 6902, 4.4) */
+                status = 5;
+                goto cleanup;
+            }
             value = detach_path(object, (unsigned char*)from->valuestring, case_sensitive);
         }
         if (opcode == COPY)
